@@ -24,6 +24,8 @@ import RV.Base.Proto
     csv-rt  <Result>            -> ok … | err …                  ofCsv (toCsv r)
     csv-to  <Result>            -> <Table> | err …               toCsv
     csv-of  <Table>             -> ok … | err …                  ofCsv
+    hist <0|1> <Result> | <k<n>|f>*  -> per op `T<n> cells…` (rows handed out by a fresh iterator advanced n times)
+                                       or `F<len>`, joined by ` ; `, then ` | <Result>` = Result.bindings at the end
     const <token>               -> <token>
 -/
 open RV RV.C16 RV.Proto
@@ -184,6 +186,11 @@ def decChoice (w : String) : Option Spec.Tsv.CellChoice :=
     pure { sq := a = "1", short := b = "1", chars := ks }
   | _ => none
 
+def decHOp (w : String) : Option HOp :=
+  if w = "f" then some .force
+  else if w.startsWith "k" then (w.drop 1).toNat?.map .take
+  else none
+
 def withResult (ws : List String) (f : Result → String) : String :=
   match decResult ws with
   | some (r, []) => f r
@@ -227,6 +234,26 @@ def step (_ : Unit) : List String → Unit × String
     match decTable ws with
     | some t => ((), encOut (ofCsv t))
     | none => ((), "bad-op")
+  | "hist" :: lz :: ws =>
+    -- hist <0|1 lazy> <Result> | <op>* : per op what the caller saw, then the table `Result.bindings` ends with
+    match decResult ws with
+    | some (.select vars rows, "|" :: ops) =>
+      match ops.mapM decHOp with
+      | some ops =>
+        let init : Lazy := if lz = "1" then ⟨[], some rows⟩ else ⟨rows, none⟩
+        let rec go (s : Lazy) (os : List HOp) (acc : List String) : Lazy × List String :=
+          match os with
+          | [] => (s, acc.reverse)
+          | o :: os =>
+            let (s', seen) := s.step o
+            let line := match o with
+              | .take _ => " ".intercalate (("T" ++ toString seen.length) :: (seen.map (fun r => (alignCells vars.length r).map encCell)).flatten)
+              | .force => "F" ++ toString seen.length
+            go s' os (line :: acc)
+        let (s, segs) := go init ops []
+        ((), " ; ".intercalate segs ++ " | " ++ encResult (.select vars s.force.mat))
+      | none => ((), "bad-op")
+    | _ => ((), "bad-op")
   | ["const", w] => ((), w)
   | _ => ((), "bad-op")
 
